@@ -13,6 +13,8 @@ type Options struct {
 	NoErrCalls   bool // no (string, error) calls
 	Ticks        bool // sprinkle tick("id") expressions to trace evaluation
 	Extras       bool // css / script templates and Go blocks between templates
+	// ScriptExprs adds script elements that place {{ s1 }} bare and inside string literals.
+	ScriptExprs bool
 	// NoTracedClassInCond leaves tick() out of class expressions inside conditional attributes
 	// (a listed known finding: those expressions are hoisted and always evaluated). Excluded is
 	// called each time that happens.
@@ -404,7 +406,11 @@ func (g *gen) node(depth int) Node {
 		if n.Kind == "style" {
 			n.Text = rapid.SampledFrom([]string{"", ".a { color: red; }", "\n\t.b > p { margin: 0 }\n\t", "/* é */ .c::after { content: \"x\"; }"}).Draw(g.t, "css")
 		} else {
-			n.Text = rapid.SampledFrom([]string{"", "var a = 1;", "\n\t\tif (1 < 2) { console.log(\"é\"); }\n\t", "var s = 'it\\'s'; // c\n\t"}).Draw(g.t, "js")
+			pool := []string{"", "var a = 1;", "\n\t\tif (1 < 2) { console.log(\"é\"); }\n\t", "var s = 'it\\'s'; // c\n\t"}
+			if g.o.ScriptExprs {
+				pool = append(pool, "var a = {{ s1 }};", "var a = \"{{ s1 }}\";", "var a = '{{ s1 }}', b = {{ s1 }};")
+			}
+			n.Text = rapid.SampledFrom(pool).Draw(g.t, "js")
 		}
 	}
 	return n
